@@ -1,5 +1,5 @@
 (* Proofs/FilterSplit.v — the split-unit filter path (ConvertSplitUnitSection::new_with_filter) on a .dwo section
-   with ANY number of units (C19), as repaired (FIXCOMMIT: only the offsets of the converted unit are reserved):
+   with ANY number of units (C19), as repaired (7a2e6de: only the offsets of the converted unit are reserved):
    what it emits, no reference to a DIE that is never emitted, a reference into another unit is an error. *)
 From Coq Require Import List NArith ZArith Bool Lia.
 Require Import GV.Base.Res GV.Base.Ints GV.Spec.Graph GV.Model.Filter GV.Spec.FilterSpec GV.Model.FilterAttrs.
